@@ -18,6 +18,8 @@ def seed_name(d):
     parts = os.path.normpath(d).split(os.sep)
     if parts[-2].startswith("seed2_"):          # second wave: m1/m2 are kept as m3/m4
         return parts[-2].replace("seed2_", "") + "_m" + str(int(parts[-1][1:]) + 2)
+    if parts[-2].startswith("seed4_"):          # fourth wave: m7
+        return parts[-2].replace("seed4_", "") + "_m" + str(int(parts[-1][1:]) + 6)
     if parts[-2].startswith("seed3_"):          # third wave: m5/m6
         return parts[-2].replace("seed3_", "") + "_m" + str(int(parts[-1][1:]) + 4)
     return parts[-2].replace("seed_", "") + "_" + parts[-1]
